@@ -369,6 +369,7 @@ class Polygon(Shape2D):
         # axis theorem can be applied in the reverse direction (rotating about
         # the origin before translating to the actual centroid).
         original_center = self.center.copy()
+        live_vertices = self._vertices
         original_vertices = self._vertices.copy()
         original_normal = self._normal.copy()
 
@@ -384,8 +385,9 @@ class Polygon(Shape2D):
             original_center, rotate_order2_tensor(mat, inertia_tensor), self.area
         )
 
-        self.center = original_center
-        self._vertices = original_vertices
+        # Restore the original array object (it may have been handed out to callers).
+        live_vertices[:] = original_vertices
+        self._vertices = live_vertices
         self._normal = original_normal
 
         return shifted_inertia_tensor
